@@ -496,6 +496,11 @@ def jobs(tier):
   add('h_quantize_extract', n=2, swap=0, sps=4, bins=4, budget=900)
   add('h_quantize_extract', n=2, swap=0, sps=4, type='melody', budget=900)
   add('h_quantize_extract', n=2, swap=0, sps=4, type='pianoroll', budget=900)
+  if deep:
+    for sw in (0, 1):
+      add('h_quantize_extract', n=3, swap=sw, sps=4, bins=4, budget=3000)
+      add('h_quantize_extract', n=3, swap=sw, sps=4, type='melody',
+          budget=3000)
   add('h_midi_export', field='notes', n=2, swap=0)
   add('h_midi_export', field='tempos', n=2, swap=0)
   add('h_midi_export', field='tempos', n=3, swap=1, budget=600)
